@@ -24,92 +24,7 @@ func checkC11(r *Run) {
 	if ch == nil {
 		return
 	}
-	// --- r1 delegation ---
-	for _, pair := range [][2]string{{"ReadAt", "readAt"}, {"WriteAt", "writeAt"}} {
-		fi := r.mustFunc("r1", "p9", "clientFile."+pair[0])
-		if fi == nil {
-			continue
-		}
-		okDel := false
-		if len(fi.Decl.Body.List) == 1 {
-			if ret, ok := fi.Decl.Body.List[0].(*ast.ReturnStmt); ok && len(ret.Results) == 1 {
-				if c, ok := unparen(ret.Results[0]).(*ast.CallExpr); ok && calleeKey(info, c) == "p9.chunk" && len(c.Args) == 4 {
-					a0 := r.L.str(c.Args[0])
-					a1 := r.L.str(c.Args[1])
-					recv := fi.Decl.Recv.List[0].Names[0].Name
-					var pnames []string
-					for _, f := range fi.Decl.Type.Params.List {
-						for _, nm := range f.Names {
-							pnames = append(pnames, nm.Name)
-						}
-					}
-					okDel = a0 == recv+".client.payloadSize" && a1 == recv+"."+pair[1] && len(pnames) == 2 && r.L.str(c.Args[2]) == pnames[0] && r.L.str(c.Args[3]) == pnames[1]
-				}
-			}
-		}
-		r.check(okDel, "r1", "clientFile."+pair[0]+" delegates to chunk", fi.Decl.Pos(), "return chunk(c.client.payloadSize, c."+pair[1]+", p, offset)", pair[0]+" is not 'return chunk(c.client.payloadSize, c."+pair[1]+", p, offset)': requests would not be split by the negotiated payload size")
-	}
-	// readAt/writeAt referenced only as chunk's argument in ReadAt/WriteAt
-	p9 := r.L.Pkg("p9")
-	for _, nm := range []string{"readAt", "writeAt"} {
-		target := r.L.Func("p9", "clientFile."+nm)
-		if target == nil {
-			r.undecided("r1", "clientFile."+nm, token.NoPos, "not found")
-			continue
-		}
-		var bad []string
-		for _, f := range p9.Syntax {
-			ast.Inspect(f, func(n ast.Node) bool {
-				sel, ok := n.(*ast.SelectorExpr)
-				if !ok || info.Uses[sel.Sel] != types.Object(target.Obj) {
-					return true
-				}
-				fd := r.L.enclosingDecl(sel)
-				want := "ReadAt"
-				if nm == "writeAt" {
-					want = "WriteAt"
-				}
-				okUse := false
-				if c, ok := r.L.parent(sel).(*ast.CallExpr); ok && calleeKey(info, c) == "p9.chunk" && len(c.Args) == 4 && c.Args[1] == ast.Expr(sel) && fd != nil && fd.Name.Name == want {
-					okUse = true
-				}
-				if !okUse {
-					where := "?"
-					if fd != nil {
-						where = fd.Name.Name
-					}
-					bad = append(bad, where+" at "+r.L.relPos(sel.Pos()))
-				}
-				return true
-			})
-		}
-		r.check(len(bad) == 0, "r1", "clientFile."+nm+" is reached only through chunk", target.Decl.Pos(), "single-message primitive used only as chunk's callback", "the single-message primitive "+nm+" is used directly in "+strings.Join(bad, ", ")+": a request larger than the payload size would go out unsplit")
-	}
-	// tread/twrite literals only inside readAt/writeAt
-	for _, f := range p9.Syntax {
-		ast.Inspect(f, func(n ast.Node) bool {
-			cl, ok := n.(*ast.CompositeLit)
-			if !ok {
-				return true
-			}
-			ts := types.TypeString(info.TypeOf(cl), nil)
-			var want string
-			switch {
-			case strings.HasSuffix(ts, "p9.tread"):
-				want = "readAt"
-			case strings.HasSuffix(ts, "p9.twrite"):
-				want = "writeAt"
-			default:
-				return true
-			}
-			fd := r.L.enclosingDecl(cl)
-			if fd == nil || fd.Name.Name == "init" || len(cl.Elts) == 0 {
-				return true // registry constructors
-			}
-			r.check(fd.Name.Name == want, "r1", fmt.Sprintf("%s: builds a %s request", fd.Name.Name, want[:len(want)-2]), cl.Pos(), "constructed in "+want, "a "+ts+" request is built in "+fd.Name.Name+", outside the chunked path")
-			return true
-		})
-	}
+	c11Delegation(r, m)
 
 	// --- chunk internals ---
 	var pnames []string
@@ -462,4 +377,97 @@ func c11Primitives(r *Run, m *ServerModel) {
 		}
 		r.check(okRet, "r5", "writeAt: returns the server's count", wa.Decl.Pos(), "return int(rwrite.Count), nil", "writeAt does not return the count the server reported")
 	}
+}
+
+// c11Delegation (r1): ReadAt/WriteAt delegate to chunk; the single-message primitives and the
+// Tread/Twrite requests exist nowhere else.
+func c11Delegation(r *Run, m *ServerModel) {
+	info := m.Info
+	// --- r1 delegation ---
+	for _, pair := range [][2]string{{"ReadAt", "readAt"}, {"WriteAt", "writeAt"}} {
+		fi := r.mustFunc("r1", "p9", "clientFile."+pair[0])
+		if fi == nil {
+			continue
+		}
+		okDel := false
+		if len(fi.Decl.Body.List) == 1 {
+			if ret, ok := fi.Decl.Body.List[0].(*ast.ReturnStmt); ok && len(ret.Results) == 1 {
+				if c, ok := unparen(ret.Results[0]).(*ast.CallExpr); ok && calleeKey(info, c) == "p9.chunk" && len(c.Args) == 4 {
+					a0 := r.L.str(c.Args[0])
+					a1 := r.L.str(c.Args[1])
+					recv := fi.Decl.Recv.List[0].Names[0].Name
+					var pnames []string
+					for _, f := range fi.Decl.Type.Params.List {
+						for _, nm := range f.Names {
+							pnames = append(pnames, nm.Name)
+						}
+					}
+					okDel = a0 == recv+".client.payloadSize" && a1 == recv+"."+pair[1] && len(pnames) == 2 && r.L.str(c.Args[2]) == pnames[0] && r.L.str(c.Args[3]) == pnames[1]
+				}
+			}
+		}
+		r.check(okDel, "r1", "clientFile."+pair[0]+" delegates to chunk", fi.Decl.Pos(), "return chunk(c.client.payloadSize, c."+pair[1]+", p, offset)", pair[0]+" is not 'return chunk(c.client.payloadSize, c."+pair[1]+", p, offset)': requests would not be split by the negotiated payload size")
+	}
+	// readAt/writeAt referenced only as chunk's argument in ReadAt/WriteAt
+	p9 := r.L.Pkg("p9")
+	for _, nm := range []string{"readAt", "writeAt"} {
+		target := r.L.Func("p9", "clientFile."+nm)
+		if target == nil {
+			r.undecided("r1", "clientFile."+nm, token.NoPos, "not found")
+			continue
+		}
+		var bad []string
+		for _, f := range p9.Syntax {
+			ast.Inspect(f, func(n ast.Node) bool {
+				sel, ok := n.(*ast.SelectorExpr)
+				if !ok || info.Uses[sel.Sel] != types.Object(target.Obj) {
+					return true
+				}
+				fd := r.L.enclosingDecl(sel)
+				want := "ReadAt"
+				if nm == "writeAt" {
+					want = "WriteAt"
+				}
+				okUse := false
+				if c, ok := r.L.parent(sel).(*ast.CallExpr); ok && calleeKey(info, c) == "p9.chunk" && len(c.Args) == 4 && c.Args[1] == ast.Expr(sel) && fd != nil && fd.Name.Name == want {
+					okUse = true
+				}
+				if !okUse {
+					where := "?"
+					if fd != nil {
+						where = fd.Name.Name
+					}
+					bad = append(bad, where+" at "+r.L.relPos(sel.Pos()))
+				}
+				return true
+			})
+		}
+		r.check(len(bad) == 0, "r1", "clientFile."+nm+" is reached only through chunk", target.Decl.Pos(), "single-message primitive used only as chunk's callback", "the single-message primitive "+nm+" is used directly in "+strings.Join(bad, ", ")+": a request larger than the payload size would go out unsplit")
+	}
+	// tread/twrite literals only inside readAt/writeAt
+	for _, f := range p9.Syntax {
+		ast.Inspect(f, func(n ast.Node) bool {
+			cl, ok := n.(*ast.CompositeLit)
+			if !ok {
+				return true
+			}
+			ts := types.TypeString(info.TypeOf(cl), nil)
+			var want string
+			switch {
+			case strings.HasSuffix(ts, "p9.tread"):
+				want = "readAt"
+			case strings.HasSuffix(ts, "p9.twrite"):
+				want = "writeAt"
+			default:
+				return true
+			}
+			fd := r.L.enclosingDecl(cl)
+			if fd == nil || fd.Name.Name == "init" || len(cl.Elts) == 0 {
+				return true // registry constructors
+			}
+			r.check(fd.Name.Name == want, "r1", fmt.Sprintf("%s: builds a %s request", fd.Name.Name, want[:len(want)-2]), cl.Pos(), "constructed in "+want, "a "+ts+" request is built in "+fd.Name.Name+", outside the chunked path")
+			return true
+		})
+	}
+
 }
